@@ -1,5 +1,6 @@
 use crate::core::framework::Check;
 
+pub mod c01;
 pub mod c02;
 pub mod c03;
 pub mod c04;
@@ -7,11 +8,14 @@ pub mod c05;
 pub mod c06;
 pub mod c07;
 pub mod c17;
+pub mod hostile;
 
-pub const ALL: &[&str] = &["C02", "C03", "C04", "C05", "C06", "C07", "C17"];
+pub const ALL: &[&str] = &["C01", "C02", "C03", "C04", "C05", "C06", "C07", "C13", "C17"];
 
 pub fn make(id: &str) -> Option<Box<dyn Check>> {
     match id {
+        "C01" => Some(Box::new(c01::Hostile::new("C01"))),
+        "C13" => Some(Box::new(c01::Hostile::new("C13"))),
         "C02" => Some(Box::new(c02::C02)),
         "C03" => Some(Box::new(c03::C03)),
         "C04" => Some(Box::new(c04::C04)),
